@@ -148,6 +148,12 @@ impl SendStream {
                         return Poll::Ready(Err(e.clone().into()));
                     }
                     state.stopped.insert(self.stream, cx.waker().clone());
+                    #[cfg(compio_verif)]
+                    state.verif_snap(
+                        crate::verif::REG,
+                        crate::verif::T_STOPPED,
+                        crate::verif::stream_id(self.stream),
+                    );
                     Poll::Pending
                 }
             }
@@ -172,6 +178,12 @@ impl SendStream {
                 Ok(e) => Poll::Ready(Err(e)),
                 Err(()) => {
                     state.writable.insert(self.stream, cx.waker().clone());
+                    #[cfg(compio_verif)]
+                    state.verif_snap(
+                        crate::verif::REG,
+                        crate::verif::T_WRITABLE,
+                        crate::verif::stream_id(self.stream),
+                    );
                     Poll::Pending
                 }
             },
@@ -222,6 +234,12 @@ impl Drop for SendStream {
         // clean up any previously registered wakers
         state.stopped.remove(&self.stream);
         state.writable.remove(&self.stream);
+        #[cfg(compio_verif)]
+        state.verif_snap(
+            crate::verif::DROP_SEND,
+            0,
+            crate::verif::stream_id(self.stream),
+        );
 
         if state.error.is_some() || (self.is_0rtt && !state.check_0rtt()) {
             return;
